@@ -9,7 +9,7 @@ import signal
 import sys
 
 HERE = os.path.dirname(os.path.abspath(__file__))
-REPO = os.environ.get("REPO", "/repo")
+REPO = os.environ.get("VERIF_REPO", "/repo")
 sys.path.insert(0, os.path.join(HERE, "compat"))
 import fastcore_self  # noqa: E402,F401  (must precede any /repo import)
 
